@@ -70,10 +70,11 @@ def req_body(rng, chan, key, want_reply=True):
     return b
 
 
-def open_body(rng, kind, sender):
+def open_body(rng, kind, sender, fwd_port=None):
     b = sstr(kind) + u32(sender) + u32(rng.choice([32768, 1 << 21, 0xFFFFFFFF])) + u32(rng.choice([32768, 1 << 15, 0xFFFFFFFF]))
     if kind in ("forwarded-tcpip", "direct-tcpip"):
-        b += sstr("127.0.0.1") + u32(rng.choice([4022, 80, 0])) + sstr("10.9.8.7") + u32(rng.randrange(1024, 65535))
+        b += sstr("127.0.0.1") + u32(fwd_port if fwd_port is not None else rng.choice([4022, 80, 0])) \
+            + sstr("10.9.8.7") + u32(rng.randrange(1024, 65535))
     elif kind == "x11":
         b += sstr("10.9.8.7") + u32(rng.randrange(1024, 65535))
     elif kind == "forwarded-streamlocal@openssh.com":
@@ -162,7 +163,10 @@ class State:
         self.server_chans = []  # client-side ids of confirmed server-opened channels
         self.legit_remote_ids = set()  # sender ids of opens that were legitimately confirmable
         self.next_sender = 1000
-        self.pf = None
+        self.live = []  # reference model: (addr, port, how) of the reverse forwards that are active right now
+        self.gone = []  # forwards that were cancelled
+        self.tcp_phase = "never"
+        self.next_alloc = 40000
         self.handled = []  # channels given to custom handlers
 
 
@@ -197,6 +201,8 @@ def judge_batch(ctx, sess, st, since_n, desc, sent):
                 sender = r.u32()
                 feat = FEATURE_OF.get(kind)
                 ctx.count("channel_opens_read")
+                if kind == "forwarded-tcpip":
+                    ctx.count("tcp_open_read_phase_" + info.get("tcp_phase", "never"))
                 enabled = bool(feat and info["enabled"].get(feat))
                 if enabled:
                     ctx.count("channel_opens_read_while_enabled")
@@ -205,6 +211,8 @@ def judge_batch(ctx, sess, st, since_n, desc, sent):
                     ctx.count("open_confirmations_seen")
                     if enabled:
                         ctx.count("open_confirmations_legit")
+                        if kind == "forwarded-tcpip":
+                            ctx.count("tcp_open_accepted_phase_" + info.get("tcp_phase", "never"))
                         st.legit_remote_ids.add(sender)
                         cr = Rd(conf[0]["payload"], 1)
                         cr.u32()
@@ -279,16 +287,32 @@ def run_session(ctx, rng, desc):
                         st.enabled["agent"] = ever["agent"] = True
                         ctx.count("api_request_forward_agent")
                 elif kind == "enable_pf":
-                    sess.pol["check_port_forward_request"] = 4022
+                    mode = op[2] if len(op) > 2 else rng.choice(["explicit", "zero"])
                     h = (lambda c, a, b: st.handled.append(c)) if op[1] else None
-                    r, val = api(lambda: v.request_port_forward("127.0.0.1", 4022, handler=h))
+                    if mode == "zero":
+                        alloc = st.next_alloc
+                        st.next_alloc += 1
+                        sess.pol["check_port_forward_request"] = alloc
+                        r, val = api(lambda: v.request_port_forward("127.0.0.1", 0, handler=h))
+                    else:
+                        free = [p for p in (4022, 4024, 4025, 4026) if p not in [x[1] for x in st.live]]
+                        if not free:
+                            continue
+                        alloc = rng.choice(free)
+                        sess.pol["check_port_forward_request"] = alloc
+                        r, val = api(lambda: v.request_port_forward("127.0.0.1", alloc, handler=h))
                     if r == "ok":
+                        if val != alloc:
+                            ctx.inconclusive("request_port_forward returned %r, the server allocated %r" % (val, alloc))
+                        was = st.tcp_phase
+                        st.live.append(("127.0.0.1", alloc, mode))
                         st.enabled["tcp"] = ever["tcp"] = True
-                        st.pf = ("127.0.0.1", 4022)
+                        st.tcp_phase = "live_after_rerequest" if (st.gone and len(st.live) == 1) else "live"
                         cancelled = False
                         ctx.count("api_request_port_forward")
+                        ctx.count("api_request_port_forward_" + ("port0" if mode == "zero" else "explicit_port"))
                 elif kind == "refused_pf":
-                    if st.enabled["tcp"]:
+                    if st.live:
                         continue
                     sess.pol["check_port_forward_request"] = False
                     r, val = api(lambda: v.request_port_forward("127.0.0.1", 4023))
@@ -296,14 +320,31 @@ def run_session(ctx, rng, desc):
                         refused["tcp"] = True
                         ctx.count("api_request_port_forward_refused")
                     elif r == "ok":
-                        st.enabled["tcp"] = ever["tcp"] = True
+                        ctx.inconclusive("harness: a forward the server refused was reported granted")
+                        return
                 elif kind == "cancel_pf":
-                    if not st.enabled["tcp"]:
+                    if not st.live:
                         continue
-                    r, val = api(lambda: v.cancel_port_forward(*st.pf))
-                    st.enabled["tcp"] = False  # from the moment the call was made
-                    cancelled = True
-                    ctx.count("api_cancel_port_forward")
+                    which = op[2] if len(op) > 2 else rng.choice(["one", "all"])
+                    had_many = len(st.live) > 1
+                    r = "ok"
+                    for _ in range(len(st.live) if which == "all" else 1):
+                        fw = st.live.pop(rng.randrange(len(st.live)))
+                        st.gone.append(fw)
+                        # the forward stops being active the moment the application asks for its cancellation
+                        st.enabled["tcp"] = bool(st.live)
+                        cancelled = not st.live
+                        r, val = api(lambda: v.cancel_port_forward(fw[0], fw[1]))
+                        ctx.count("api_cancel_port_forward")
+                        ctx.count("api_cancel_port_forward_" + ("port0" if fw[2] == "zero" else "explicit_port"))
+                        if r == "timeout":
+                            break
+                    if st.live:
+                        st.tcp_phase = "live_after_partial_cancel"
+                    elif had_many:
+                        st.tcp_phase = "after_cancel_all_of_many"
+                    else:
+                        st.tcp_phase = "after_cancel_port0" if fw[2] == "zero" else "after_cancel_explicit"
                 elif kind == "close_chan":
                     if len(st.client_chans) < 2:
                         continue
@@ -318,7 +359,8 @@ def run_session(ctx, rng, desc):
             sess.hold()
             since_n = sess.att.mark()
             sent = {}
-            snap = dict(enabled=dict(st.enabled), ever=dict(ever), refused=dict(refused), cancelled=cancelled)
+            snap = dict(enabled=dict(st.enabled), ever=dict(ever), refused=dict(refused), cancelled=cancelled,
+                        live=[(a, p) for (a, p, _) in st.live], tcp_phase=st.tcp_phase)
             msgs = []
             if kind == "globals":
                 for gk in rng.sample(GLOBAL_KINDS, rng.randint(2, 4)) + [rand_name(rng)]:
@@ -339,7 +381,8 @@ def run_session(ctx, rng, desc):
                 for ok in ks:
                     sender = st.next_sender
                     st.next_sender += 1
-                    msgs.append((90, open_body(rng, ok, sender), dict(what="open", kind=ok, sender=sender)))
+                    ports = [x[1] for x in st.live] + [x[1] for x in st.gone] + [4022, 0, 80]
+                    msgs.append((90, open_body(rng, ok, sender, rng.choice(ports)), dict(what="open", kind=ok, sender=sender)))
             elif kind == "chanreqs":
                 targets = [c.get_id() for c in st.client_chans] + list(st.server_chans)
                 if not targets:
@@ -396,11 +439,25 @@ def draw_ops(rng):
     for _ in range(n):
         k = rng.choice(pool)
         ops.append((k, rng.random() < 0.5))
+        if k == "refused_pf":
+            ops.insert(len(ops) - 1, ("cancel_pf", False, "all"))  # a refusal is only meaningful with no forward live
         if k in ("enable_x11", "enable_agent", "enable_pf", "refused_pf", "cancel_pf"):
             ops.append(("opens", "focus"))  # always look right after a state change
             if k == "enable_pf" and rng.random() < 0.6:
                 ops.append(("cancel_pf", False))
                 ops.append(("opens", "focus"))
+    if rng.random() < 0.8:
+        hf = lambda: rng.random() < 0.5
+        F = ("opens", "focus")
+        scen = rng.choice([
+            [("enable_pf", hf(), "zero"), F, ("cancel_pf", False, "one"), F],
+            [("enable_pf", hf(), rng.choice(["explicit", "zero"])), ("enable_pf", hf(), "zero"), F,
+             ("cancel_pf", False, "one"), F, ("cancel_pf", False, "all"), F],
+            [("enable_pf", hf(), "explicit"), ("enable_pf", hf(), "explicit"), F, ("cancel_pf", False, "all"), F],
+            [("enable_pf", hf(), rng.choice(["explicit", "zero"])), ("cancel_pf", False, "all"), F,
+             ("enable_pf", hf(), rng.choice(["explicit", "zero"])), F, ("cancel_pf", False, "all"), F],
+        ])
+        ops = ops + [("cancel_pf", False, "all")] + scen  # start the scenario from "no forward live"
     ops.append(("opens", "focus"))
     ops.append(("globals", False))
     ops.append(("chanreqs", False))
@@ -439,3 +496,11 @@ def run(ctx):
     ctx.require("api_cancel_port_forward", 5)
     ctx.require("api_request_port_forward_refused", 10)
     ctx.require("channels_returned_by_accept", 10)
+    ctx.require("api_request_port_forward_port0", 15)
+    ctx.require("api_cancel_port_forward_port0", 10)
+    ctx.require("tcp_open_read_phase_after_cancel_port0", 8)
+    ctx.require("tcp_open_read_phase_after_cancel_explicit", 5)
+    ctx.require("tcp_open_read_phase_after_cancel_all_of_many", 8)
+    ctx.require("tcp_open_read_phase_live_after_partial_cancel", 5)
+    ctx.require("tcp_open_read_phase_live_after_rerequest", 5)
+    ctx.require("tcp_open_accepted_phase_live", 10)
